@@ -196,10 +196,18 @@ CFG = {
             "SIZE SWEEP of the bytes AROUND a history (`garh`, added after the missed seed C03_7; sibling of the trailing-side seed C04_5): for every seed, independent of n, every length of C03's sweep (0..40, 63-65, 127, 128, 255, 256, 511, 512, 1000, 1019-1021, 1023-1025, 2047, 2048, 4095-4097, 8192, 65535, 65536, 70000; thorough + 1000000, three rounds) "
             "of filler (kinds as in C03 `garb`) before the header, in the gap before the LAST startxref, after the LAST %%EOF - one place at a time and all three at once - around a well-chained history of 2-4 revisions (families 0-3 and 7 = a /Prev skipping revisions, rotating with the size); every /Prev and offset is relative "
             "to the header, so the oracle is DocSpec.resolve of the chain + the reported header offset = length of the leading filler; 261 cases per seed; corpus/C04/garbage_size_sweep.case (hand-built two-revision histories behind 1019 / 1020 / 1024 / 1025 bytes, with 1020 / 1025 trailing and 1024 gap bytes). "
+            "REDEFINITION INSIDE A NEW OBJECT STREAM (`redef`, family 5 made systematic after the missed seed C04_8: the live object streams replayed in REVERSE object-number order): for every seed all 120 combinations of: base revision (cross-reference stream or hybrid) with plain objects 1, 2 and object stream 20 holding 11, 12, 13 in random order; a later revision writes a NEW object stream "
+            "numbered ABOVE (30) / BELOW (10) the old one with new values for the first / last / middle member of the old stream, ALL of them (old stream fully superseded: not live any more) or the first two; the new stream holds only those / a brand-new member 14 before them / after them; history = base + update / + a plain update after it / a plain update before it / a SECOND redefinition in a third container numbered on the other side (5 / 35); "
+            "oracle DocSpec.resolve (every member resolves to the newest revision mentioning it). The unchanged code replays every live object stream whole in ascending number order (known finding objstm-member-touched-later); the judge now keeps that class ONLY for the exact outcome the as-built rule predicts (Driver/C04.lean replayDefs / replayExpected: entries newest first per (number, generation), "
+            "file-level objects defined, every live container replayed whole in ascending order, a member already defined overwrites and ends the replay of its stream - stated over what the encoder wrote, independent of the loader model) - a case of that shape with ANY OTHER outcome (another surviving definition, a rejection) is `wrong-merge` and reported; the same refinement applies to the random family 5 `hist` cases; "
+            "corpus/C04/objstm_member_redefined_in_new_stream.case (hand-built: the seed's demo and three siblings on which the unchanged code is right), two `redef` lines in known_objstm-member-touched-later.case. "
+            "IDENTITY MISMATCH BY RETARGETING ACROSS REVISIONS (`reth`, after the missed seed C03_8, see C03 `ret`): histories of 2 and 3 revisions (layouts at random; revision i writes 2 again, a plain object, a stream with direct /Length and a stream with forward referenced /Length + holder) in which ONE entry - of B in the section of revision bRev, B an object of that revision or a number no object carries - "
+            "carries the offset of an object A of revision aRev: every (entry, object) pair, i.e. A in a NEWER revision (walked before B's entry), an OLDER one (after it) or the same (number order), incl. superseded definitions of 2; plus the other targets (alt offset, into the object, endobj, every section, /XRefStm stream, header); hybrid sections list A's / B's entry in table or /XRefStm stream; offsets of later revisions are found by re-rendering until stable; "
+            "must be REJECTED (decided on the bytes), except entries of 2 below the newest revision, which are shadowed: controls that must load exactly; 589 cases per seed (thorough: three rounds); corpus/C04/retarget_across_revisions.case. "
             "Every 3rd history also with one "
             "corruption (correspondence and no panic). Oracle = DocSpec.resolve over the revisions on the chain. Classifiers decided on the case: "
             "'generation-changed' = some number is mentioned with two generations; 'objstm-member-touched-later' = a member number is mentioned by a later "
-            "revision; anything else that disagrees is 'wrong-merge' and reported. non-trivial = history of >= 500 bytes or corpus case; distinct by hash",
+            "revision AND the output is exactly what the as-built replay rule predicts; anything else that disagrees is 'wrong-merge' and reported. non-trivial = history of >= 500 bytes or corpus case; distinct by hash",
     "trusted_base": COMMON_TB + [
         "modelled, not verified: ParseBuffer views as byte lists with a view-relative cursor (C17), BTreeSet as a membership list",
         "reused component models with their own correspondence checks: Prim/Obj (C02/C15/C16), Indirect (C05), Xref (C13), ObjStm (C14), Filters/Inflate (C06), Predictor (C07)",
